@@ -10,6 +10,8 @@ import (
 	"github.com/vektah/gqlparser/v2/parser"
 )
 
+import "github.com/vektah/gqlparser/v2/verifhook"
+
 func LoadSchema(inputs ...*Source) (*Schema, error) {
 	sd, err := parser.ParseSchemas(inputs...)
 	if err != nil {
@@ -233,6 +235,7 @@ func validateDirective(schema *Schema, def *DirectiveDefinition) *gqlerror.Error
 }
 
 func validateDefinition(schema *Schema, def *Definition) *gqlerror.Error {
+	verifhook.Step(verifhook.SiteSchemaDefinition)
 	for _, field := range def.Fields {
 		if err := validateName(field.Position, field.Name); err != nil {
 			// now, GraphQL spec doesn't have reserved field name
@@ -488,6 +491,7 @@ func containsString(slice []string, want string) bool {
 }
 
 func isCovariant(schema *Schema, required *Type, actual *Type) bool {
+	verifhook.Step(verifhook.SiteSchemaCovariant)
 	if required.NonNull && !actual.NonNull {
 		return false
 	}
